@@ -14,6 +14,7 @@ from ..rng import Streams, weighted
 from ..world import real_eval
 
 ID = 'C04'
+NEEDS_BUILTIN_WRAPPERS = True      # reads what the builtin monitor records (hooks / effect log)
 LEVEL = 'exploration'
 TIERS = {'quick': 12000, 'thorough': 600000}
 RULE = ('seeded chains of 5-30 single-statement evals over persistent host-typed numeric variables (int, long int, bool, '
